@@ -61,3 +61,15 @@ func init() {
 		}
 	}
 }
+
+func init() {
+	Intrinsics["symEventSeen"] = func(fr *frame, a []value) value {
+		n := strArg(a[0])
+		for _, e := range X.events {
+			if e == n {
+				return true
+			}
+		}
+		return false
+	}
+}
